@@ -17,10 +17,10 @@ def c03_jobs(tier):
             job('nullspace-degenerate-asan-t1', 'c03', 'asan', threads=1, shards=6, args=['--sub', 'nullspace_degenerate'], timeout=1800)]
 PROPS['C03'] = dict(
     level='exploration', jobs=c03_jobs,
-    rule='hier: seeded matrices from G1 (model and hard), G2, G3 (value- and structurally non-symmetric), G5 Kronecker blocks with aggr.block_size, random diagonally dominant, integer-valued grids / dd matrices / G7 patterns, cycling over the 4 coarsenings with randomised coarsening parameters (eps_strong, over_interp, relax, estimate_spectral_radius, power_iters, truncation, near-null-space vectors), coarse_enough, max_levels, direct_coarse, 15% of the inputs with shuffled rows; synthetic: integer A and integer transfer operators through the replaying policy for each of the 4 coarse_operator implementations; rebuild: 1-6 rebuilds per history drawn from {power-of-two scaled, scaled, perturbed, sign-changed off-diagonals, entries dropped, entries added, row-shuffled} followed by the original matrix; degenerate: 8 G6 sub-families x 4 coarsenings. A case is non-trivial when at least one coarsening step happened (degenerate: always); distinct = distinct (sub-check, descriptor) hash.',
+    rule='hier: seeded matrices from G1 (model and hard), G2, G3 (value- and structurally non-symmetric), G5 Kronecker blocks with aggr.block_size, random diagonally dominant, integer-valued grids / dd matrices / G7 patterns, cycling over the 4 coarsenings with randomised coarsening parameters (eps_strong, over_interp, relax, estimate_spectral_radius, power_iters, truncation, near-null-space vectors), coarse_enough, max_levels, direct_coarse, 15% of the inputs with shuffled rows; synthetic: integer A and integer transfer operators through the replaying policy for each of the 4 coarse_operator implementations; rebuild: 1-6 rebuilds per history drawn from {power-of-two scaled, scaled, perturbed, sign-changed off-diagonals, entries dropped, entries added, row-shuffled} followed by the original matrix, with every eighth history forced to a single direct-solver level (n <= coarse_enough), a single smoother level (max_levels = 1) or two levels with a direct coarse level; degenerate: 8 G6 sub-families x 4 coarsenings. A case is non-trivial when at least one coarsening step happened (degenerate and the forced single-level rebuild shapes: always); distinct = distinct (sub-check, descriptor) hash.',
     exhaustive_note='none (all four coarsenings x both SpGEMM algorithms are enumerated; inputs are sampled)',
     min_nontrivial=dict(quick=400, thorough=6000),
-    require_obs=dict(quick=['rebuilds_checked', 'exact_hierarchies', 'synthetic_coarse_operators'], thorough=['rebuilds_checked', 'exact_hierarchies', 'synthetic_coarse_operators']),
+    require_obs=dict(quick=['rebuilds_checked', 'exact_hierarchies', 'synthetic_coarse_operators', 'rebuild_shapes'], thorough=['rebuilds_checked', 'exact_hierarchies', 'synthetic_coarse_operators', 'rebuild_shapes']),
     assumptions=COMMON_ASSUME + ['bitwise rebuild-vs-fresh comparisons are made inside one process at one thread count',
                                  'transfer operators containing NaN/Inf (finding F12, energy-minimising coarsening) are counted as an observation and excluded from the value comparison: the choice of P and R is not this property'],
     technique='recording and replaying coarsening policies passed as the Coarsening template argument of amgcl::amg (every transfer_operators / coarse_operator call deep-copied), triple-product reference in long double with a term-count rounding bound (bitwise on integer-valued data), invariant monitor over the private level list through the AMGCL_VERIF accessor, bitwise differential between rebuilt and freshly assembled hierarchies; g++ 1 thread (marker SpGEMM), clang/libomp 17 threads (row-merge SpGEMM), ASan/UBSan',
